@@ -241,6 +241,31 @@ theorem C22_label_per_instantiation (st : LabelState) (h : Reachable st) (e1 e2 
   have hp : e1.1.plain = false := by simp [Desc.plain, hov]
   exact hdiff (hc hp).2
 
+/-- The monotype inside a label names nominal types by their DECLARATION: the rendering is
+    injective, so two instantiations of one generic function (or interface method) at two different
+    concrete types never share a label — in particular not at two types that merely have the same
+    unqualified name in two modules. -/
+theorem C22_label_qualified (f : Nat) (t1 t2 : Ty)
+    (h : (twoLabels f t1 t2).1 = (twoLabels f t1 t2).2) : t1 = t2 := by
+  unfold twoLabels getLabel at h
+  simp only [LabelState.find, List.find?_nil, Option.map_none, descOf, Desc.plain, Option.isNone_some,
+    Bool.false_and, Bool.false_eq_true, if_false, List.find?_cons] at h
+  by_cases hd : ({ func := f, mono := some t1.code, captures := [] } : Desc) = { func := f, mono := some t2.code, captures := [] }
+  · have : t1.code = t2.code := by
+      have := congrArg Desc.mono hd
+      simpa using this
+    exact code_injective t1 t2 this
+  · simp [hd] at h
+
+/-- …whereas naming nominal types by an unqualified name (`short`) is not injective as soon as
+    two different declarations share that name: the two renderings coincide -/
+theorem C22_unqualified_label_clash (short : Nat → Nat) (a b : Nat) (hab : a ≠ b) (hs : short a = short b) :
+    Ty.nominal a [] ≠ Ty.nominal b [] ∧
+      Ty.codeBy short (Ty.nominal a []) = Ty.codeBy short (Ty.nominal b []) := by
+  constructor
+  · intro h; cases h; exact hab rfl
+  · simp [Ty.codeBy, Ty.codeListBy, hs]
+
 theorem C22_label_stable (st : LabelState) (d : Desc) :
     (getLabel (getLabel st d).2 d).1 = (getLabel st d).1 := by
   unfold getLabel
@@ -260,11 +285,11 @@ example : subst (update [] sigShow (applySubst σ1 sigShow)) sigShow =
   rw [C22_subst_update]; rfl
 example : ([Ty.poly 0, .int].any isSelf = true ∨ isSelf Ty.bool = true) := Or.inl rfl
 example : selectImpl [.int, .tuple [.poly 1, .poly 2], .nominal 9 []] (Ty.tuple [.int, .float]).key = some 1 := by decide
-example : Reachable (getLabel { map := [], counter := 1 } ⟨3, some "int", []⟩).2 := Reachable.step _ Reachable.init
+example : Reachable (getLabel { map := [], counter := 1 } ⟨3, some [0], []⟩).2 := Reachable.step _ Reachable.init
 /-- `fn labelled(v: T, prefix: string) { let render = () -> prefix .. str(v) … }` at Celsius and at
     Meters: the lambda (own type `() -> string`, captures `v: T` and `prefix: string`) gets two labels -/
-private def dC : Desc := ⟨7, none, [("Celsius", true), ("string", false)]⟩
-private def dM : Desc := ⟨7, none, [("Meters", true), ("string", false)]⟩
+private def dC : Desc := ⟨7, none, [((Ty.nominal 20 []).code, true), (Ty.string.code, false)]⟩
+private def dM : Desc := ⟨7, none, [((Ty.nominal 21 []).code, true), (Ty.string.code, false)]⟩
 example : (getLabel (getLabel { map := [], counter := 1 } dC).2 dM).1 ≠ (getLabel { map := [], counter := 1 } dC).1 := by decide
 example : dC.capturesOverloaded = true := rfl
 
